@@ -120,12 +120,14 @@ theorem casmV1_tag (n : UInt64) (v2of : Nat → Nat) (cs : Classes) : ∀ (m : F
       · simp at h
       · split at h
         · simp at h
-        · rename_i ws' hr
-          simp only [Except.ok.injEq] at h
-          subst h
-          rcases List.mem_cons.mp hop with rfl | hop
-          · rfl
-          · exact casmV1_tag n v2of cs rest ws' hr op hop
+        · split at h
+          · simp at h
+          · rename_i ws' hr
+            simp only [Except.ok.injEq] at h
+            subst h
+            rcases List.mem_cons.mp hop with rfl | hop
+            · rfl
+            · exact casmV1_tag n v2of cs rest ws' hr op hop
 
 theorem casmV2Migrated_tag (db : IDB) (n : UInt64) : ∀ (m : FMap) (ws : IBatch),
     casmV2Migrated db n m = .ok ws → ∀ op ∈ ws, op.1.tag = 8
@@ -178,13 +180,15 @@ theorem casmV1_spec (n : UInt64) (v2of : Nat → Nat) (cs : Classes) : ∀ (m : 
       · simp at h
       · split at h
         · simp at h
-        · rename_i ws' hr
-          simp only [Except.ok.injEq] at h
-          subst h
-          rcases List.mem_cons.mp hop with rfl | hop
-          · exact ⟨c, by simp, _, _, rfl⟩
-          · obtain ⟨c', hc', v1, v2, e⟩ := casmV1_spec n v2of cs rest ws' hr op hop
-            exact ⟨c', by simp at hc' ⊢; exact Or.inr hc', v1, v2, e⟩
+        · split at h
+          · simp at h
+          · rename_i ws' hr
+            simp only [Except.ok.injEq] at h
+            subst h
+            rcases List.mem_cons.mp hop with rfl | hop
+            · exact ⟨c, by simp, _, _, rfl⟩
+            · obtain ⟨c', hc', v1, v2, e⟩ := casmV1_spec n v2of cs rest ws' hr op hop
+              exact ⟨c', by simp at hc' ⊢; exact Or.inr hc', v1, v2, e⟩
 
 theorem casmV2Migrated_spec (db : IDB) (n : UInt64) : ∀ (m : FMap) (ws : IBatch),
     casmV2Migrated db n m = .ok ws → ∀ op ∈ ws, ∃ c ∈ m.map (·.1), ∃ m0 m', db.get (.casmMeta c) = some (.casm m0) ∧
@@ -610,13 +614,15 @@ theorem casmV1_keys (n : UInt64) (v2of : Nat → Nat) (cs : Classes) : ∀ (m : 
       · simp at h
       · split at h
         · simp at h
-        · rename_i ws' hr
-          simp only [Except.ok.injEq] at h
-          subst h
-          rcases List.mem_cons.mp hop with rfl | hop
-          · exact ⟨c, by simp, rfl⟩
-          · obtain ⟨c', hc', e⟩ := casmV1_keys n v2of cs rest ws' hr op hop
-            exact ⟨c', by simp at hc' ⊢; exact Or.inr hc', e⟩
+        · split at h
+          · simp at h
+          · rename_i ws' hr
+            simp only [Except.ok.injEq] at h
+            subst h
+            rcases List.mem_cons.mp hop with rfl | hop
+            · exact ⟨c, by simp, rfl⟩
+            · obtain ⟨c', hc', e⟩ := casmV1_keys n v2of cs rest ws' hr op hop
+              exact ⟨c', by simp at hc' ⊢; exact Or.inr hc', e⟩
 
 theorem casmV2Migrated_keys (db : IDB) (n : UInt64) : ∀ (m : FMap) (ws : IBatch),
     casmV2Migrated db n m = .ok ws → ∀ op ∈ ws, ∃ c ∈ m.map (·.1), op.1 = .casmMeta c
@@ -815,12 +821,14 @@ theorem casmV1_vals (n : UInt64) (v2of : Nat → Nat) (cs : Classes) : ∀ (m : 
       · simp at h
       · split at h
         · simp at h
-        · rename_i ws' hr
-          simp only [Except.ok.injEq] at h
-          subst h
-          rcases List.mem_cons.mp hop with rfl | hop
-          · exact ⟨c, _, _, rfl⟩
-          · exact casmV1_vals n v2of cs rest ws' hr op hop
+        · split at h
+          · simp at h
+          · rename_i ws' hr
+            simp only [Except.ok.injEq] at h
+            subst h
+            rcases List.mem_cons.mp hop with rfl | hop
+            · exact ⟨c, _, _, rfl⟩
+            · exact casmV1_vals n v2of cs rest ws' hr op hop
 
 theorem casmV2Migrated_vals (db : IDB) (n : UInt64) : ∀ (m : FMap) (ws : IBatch),
     casmV2Migrated db n m = .ok ws → ∀ op ∈ ws, ∃ c m0 m', db.get (.casmMeta c) = some (.casm m0) ∧
@@ -1141,7 +1149,9 @@ theorem casmV1_error_of_missing (n : UInt64) (v2of : Nat → Nat) (cs : Classes)
         rcases List.mem_cons.mp hm with rfl | hm
         · simp only at hn; rw [hf] at hn; cases hn
         · obtain ⟨e, he⟩ := casmV1_error_of_missing n v2of cs rest ⟨kc', hm, hn⟩
-          exact ⟨e, by rw [he]⟩
+          by_cases hb : kc.2.compiledBad = true
+          · exact ⟨_, by rw [if_pos hb]⟩
+          · exact ⟨e, by rw [if_neg hb, he]⟩
 
 theorem casmV2DeclaredChecked_error_of_missing (n : UInt64) (cs : Classes) : ∀ (m : FMap),
     (∃ kc ∈ m, cs.find? (fun x => x.1 == kc.1) = none) → ∃ e, casmV2DeclaredChecked n cs m = .error e
